@@ -11,7 +11,7 @@ from __future__ import annotations
 
 import random
 
-FIELD_PREFIXES = ["a", "b", "c", "x", "v", "len", "d", "fld"]
+FIELD_PREFIXES = ["a", "b", "c", "x", "v", "len", "d", "fld", "_", "_"]
 NESTED_TAGS = ["item", "hdr", "entry", "node"]
 INT_PACKED = ["int8", "uint8", "int16", "uint16", "int32", "uint32", "int64", "uint64"]
 INT_WIDE = ["int24", "uint24", "int48", "uint48", "int128", "uint128"]
@@ -172,7 +172,7 @@ class DefGen:
             f = {"name": fname, "type": None, "inline": None, "ptr": 0, "dims": [], "bits": None}
             fdyn = False
             # --- bit-field run (struct only, never after a dynamic field)
-            if sw["bits"] and not is_union and not dynamic_seen and r < 0.15:
+            if sw["bits"] and not is_union and not dynamic_seen and (r < 0.15 or (i == 1 and r < 0.3)):
                 if sw["enum"] and rng.random() < 0.25:
                     e = self.enum()
                     base, tname = e["type"], e["name"]
@@ -584,6 +584,11 @@ def gen_value(rng, defs, info):
         lo, hi = INT_RANGE[info["base"]]
         if info["bits"]:
             lo, hi = 0, (1 << info["bits"]) - 1
+        if rng.random() < 0.15 and not info["bits"]:
+            # an in-range value that is an instance of ANOTHER integer type of the library (e.g. a parsed uint32 assigned
+            # to a uint16 field): a value like any other
+            v = rng.choice([0, 1, 2, 100, 127])
+            return {"k": "typed", "t": rng.choice(["uint8", "uint16", "uint32", "int32", "uint64", "int8", "int64"]), "v": v}
         return {"k": "int", "v": rng.choice([lo, hi, 0, 1, rng.randint(lo, hi), rng.randint(max(lo, -100), min(hi, 100))])}
     if kind == "leb":
         return {"k": "int", "v": rng.choice([0, 1, 127, 128, 300, 2 ** 20]) * (-1 if info["base"] == "ileb128" and rng.random() < 0.4 else 1)}
@@ -614,4 +619,6 @@ def make_value(cs, spec):
         return spec["s"]
     if k == "enum":
         return getattr(cs, spec["name"])(spec["v"])
+    if k == "typed":
+        return getattr(cs, spec["t"])(spec["v"])
     raise ValueError(k)
